@@ -70,9 +70,19 @@ func genC11(d *Draw) Case {
 	mkCatch := func(id string, ref string) *Node {
 		return g.addNode(&Node{ID: id, Kind: "catch", Events: []EventDef{{Kind: kindOf(ref), Ref: ref}}})
 	}
-	g.addNode(&Node{ID: "Start", Kind: "start"})
+	st := g.addNode(&Node{ID: "Start", Kind: "start"})
 	nc := 1 + d.N(3)
 	shape := d.N(3) // 0 sequence, 1 parallel, 2 sequence + an untaken branch with a catch and a throw event
+	startDef := d.N(3) == 2
+	if startDef {
+		// the start event carries an event definition of its own (it is triggered explicitly all the same): it is
+		// one more consumer in front of the catch events, and one that has nothing to say once it has fired
+		if d.Bool() {
+			st.StartDefs = []EventDef{{Kind: "signal", Ref: "sX"}}
+		} else {
+			st.StartDefs = []EventDef{{Kind: "message", Ref: "mX"}}
+		}
+	}
 	var used []string
 	pre := d.N(2) == 1 // a task before the first catch: events can then arrive before anything listens
 	cur := "Start"
@@ -166,7 +176,7 @@ func genC11(d *Draw) Case {
 	}
 	c.Prog = &Program{Defs: defs, Vars: vars, Tags: tags, Desc: fmt.Sprintf("catches=%v shape=%d pre-task=%v events=%v racy=%v", used, shape, pre, evd, racy)}
 	c.Picks = drawPicks(d, 40)
-	c.Meta = map[string]int{"racy": b2i(racy), "nevents": len(c.Events), "shape": shape, "final": b2i(final), "parallel": b2i(shape == 1 && nc > 1)}
+	c.Meta = map[string]int{"racy": b2i(racy), "nevents": len(c.Events), "shape": shape, "final": b2i(final), "parallel": b2i(shape == 1 && nc > 1), "startDef": b2i(startDef)}
 	return c
 }
 
@@ -278,6 +288,7 @@ func checkC11(cc Case, r *simrt.Result) *Outcome {
 	probe(o, "burst-behind-slow-subscriber", c.Meta["burst"] == 1)
 	probe(o, "more-events-than-inbox", calls > 3)
 	probe(o, "untaken-branch-listener", c.Meta["shape"] == 2)
+	probe(o, "start-event-with-a-definition-of-its-own", c.Meta["startDef"] == 1)
 	o.Sample = map[string]any{"program": c.Prog.Desc, "buf": c.Buf, "hold": c.Hold}
 	return o
 }
